@@ -37,6 +37,32 @@ Theorem C11_oversize_refused : forall max p b, max < N.of_nat (length p) -> N.of
   parse_stream max (send_frame p ++ b) = ([], Some TooLong, send_frame p ++ b).
 Proof. exact send_oversize_refused. Qed.
 
+(* the sender's state machine (send_buffer, send_backlog, writability registration) for EVERY interleaving of
+   send_message calls and socket writes of any sizes: what the socket has taken is a prefix of the stream of everything
+   sent; once the sender stops asking for writability nothing is left behind; a socket taking >= 1 byte makes progress;
+   composed with the receiver under every re-fragmentation. *)
+Theorem C11_sender_drained : forall ops, s_writing (s_run ops) = false ->
+  s_written (s_run ops) = send_stream (sent_of ops) /\ s_buf (s_run ops) = [] /\ s_backlog (s_run ops) = [].
+Proof. exact sender_drained. Qed.
+
+Theorem C11_sender_progress : forall ops n, (1 <= n)%nat -> s_buf (s_run ops) <> [] ->
+  (length (s_written (s_run ops)) < length (s_written (s_can_send (s_run ops) n)))%nat.
+Proof. exact sender_progress. Qed.
+
+Theorem C11_sender_receiver_prefix : forall max ops chunks,
+  Forall (sendable max) (sent_of ops) -> Forall bytes_wf chunks -> concat chunks = s_written (s_run ops) ->
+  snd (fst (feed max r_init chunks)) = None /\
+  exists more, fst (fst (feed max r_init chunks)) ++ more = sent_of ops.
+Proof. exact sender_receiver_prefix. Qed.
+
+Theorem C11_sender_receiver_complete : forall max ops chunks,
+  Forall (sendable max) (sent_of ops) -> Forall bytes_wf chunks -> concat chunks = s_written (s_run ops) ->
+  s_writing (s_run ops) = false ->
+  fst (fst (feed max r_init chunks)) = sent_of ops /\
+  snd (fst (feed max r_init chunks)) = None /\
+  pending (snd (feed max r_init chunks)) = [].
+Proof. exact sender_receiver_complete. Qed.
+
 Example C11_example :
   feed 100 r_init [[77;65]; [74;73;0;0;0;3;1;2]; [3;77;65;74;73;0;0;0;2;9;8]] = ([[1;2;3];[9;8]], None, r_init).
 Proof. vm_compute. reflexivity. Qed.
@@ -49,3 +75,7 @@ Print Assumptions C11_chunking.
 Print Assumptions C11_send_receive.
 Print Assumptions C11_send_receive_prefix.
 Print Assumptions C11_oversize_refused.
+Print Assumptions C11_sender_drained.
+Print Assumptions C11_sender_progress.
+Print Assumptions C11_sender_receiver_prefix.
+Print Assumptions C11_sender_receiver_complete.
